@@ -588,13 +588,24 @@ class ChartRun(object):
           pred = None
         ob = self.do(op, lambda: c.start_at(build.h[op[1]]))
       elif k == 'post_fifo':
-        e = self.new_event(op[1])
+        e = self.last_posted = self.new_event(op[1])
         self.qm.post_fifo((e.payload, op[1]))
         ob = self.do(op, lambda: c.post_fifo(e))
       elif k == 'post_lifo':
-        e = self.new_event(op[1])
+        e = self.last_posted = self.new_event(op[1])
         self.qm.post_lifo((e.payload, op[1]))
         ob = self.do(op, lambda: c.post_lifo(e))
+      elif k in ('repost_fifo', 'repost_lifo'):
+        # the very same Event object is posted once more (a tick object kept by its poster)
+        e = getattr(self, 'last_posted', None)
+        if e is None:
+          e = self.last_posted = self.new_event(self.spec.signals[0])
+        if k == 'repost_fifo':
+          self.qm.post_fifo((e.payload, e.signal_name))
+          ob = self.do(op, lambda: c.post_fifo(e))
+        else:
+          self.qm.post_lifo((e.payload, e.signal_name))
+          ob = self.do(op, lambda: c.post_lifo(e))
       elif k == 'rtc':
         pred = self._model_rtc()
         ob = self.do(op, lambda: c.next_rtc())
